@@ -68,6 +68,16 @@ def c14():
     # the same kinds of histories with the calls made from three threads in turn (strictly sequential): "any sequence of
     # calls" does not say from which thread; per-thread caches of lookups, thread-affine state
     scripts += ["\n".join(sc) for sc in _dead_descriptor_across_threads()]
+    # hundreds of live instances sharing the GF tables (a reference count or registry that only works for a handful):
+    # 257 and 300 RS instances, one destroyed, a survivor decodes with a lost data fragment, all destroyed
+    for N, cfg_ in ((257, "6 2 1 1 16 2"), (300, "6 4 2 2 16 1"), (130, "3 3 3 3 32 1")):
+        k_ = int(cfg_.split()[1]); m_ = int(cfg_.split()[2])
+        idx_ = " ".join(map(str, range(1, k_ + m_)))
+        scripts.append("\n".join(["reset", "swarm %d %s" % (N, cfg_), "probe", "destroy d1", "destroy d%d" % (N // 2),
+                                   "encode d2 1 100 7 0 0", "decode d2 1 1 0 -100 0 0 %d %s" % (k_ + m_ - 1, idx_), "dec_cleanup d2 1 0",
+                                   "recon d2 1 0 0 -100 0 0 %d %s" % (k_ + m_ - 1, idx_), "enc_cleanup d2 1 0",
+                                   "encode d%d 2 64 9 0 0" % N, "decode d%d 2 2 0 -100 0 0 %d %s" % (N, k_ + m_ - 1, idx_), "dec_cleanup d%d 2 0" % N,
+                                   "enc_cleanup d%d 2 0" % N, "swarm_end", "probe"]))
     scripts += ["\n".join(_threaded(H.random_history(_seed_of(chk, 7000 + i), 200), i)) for i in range(nrand // 2)]
     scripts += ["\n".join(_threaded(_isolation_history(_seed_of(chk, 8000 + i)), i)) for i in range(20 if thorough else 6)]
     v, files = _run_hist(chk, scripts, "C14", ["C14", "C13 create", "C02", "C13/C01", "C13/C03", "fault"])
@@ -330,7 +340,7 @@ def c13():
     box += _w_box()
     fb, eb, rb = run_sweeps("asan", box, "C13-box")
     vb = validate("TraceCodes", fb)
-    _collect(chk, vb, ["C13", "C14 create returned descriptor 0", "fault"])
+    _collect(chk, vb, ["C13", "C14 create returned descriptor 0", "C16 failed create kept memory", "fault"])
     # accepted instances survive a full cycle (encode/decode/reconstruct/queries/destroy) without faults
     cyc = []
     for be in (3, 4, 6, 7):
@@ -350,6 +360,9 @@ def c13():
     for be, (k, m, hd) in ((BE_RS, (4, 2, 2)), (BE_XOR, (5, 5, 3)), (BE_ISAL_VAND, (4, 2, 2))):
         for ct_ in (0, 3, 4, 7, 255, -1):
             cyc.append("sweep_dec %d %d %d %d %d %d %d %d %d %d %d %d" % (be, k, m, hd, WORD[be], ct_, 77, _seed_of(chk, 3000 + ct_), 0, 2, 6, 1 | 8 | 16))
+    # fragment lengths shorter than a header with buffers that really are that short (exact-size heap blocks)
+    for j, (be, k, m, hd) in enumerate([(BE_RS, 4, 2, 2), (BE_XOR, 6, 6, 4), (BE_ISAL_VAND, 4, 2, 2), (BE_RS, 1, 1, 1)]):
+        cyc.append("short_len %d %d %d %d %d %d %d %d" % (be, k, m, hd, WORD[be], 1 + j % 2, 100 + j, _seed_of(chk, 5000 + j)))
     fc, ec, rcn = run_sweeps("asan", cyc, "C13-cycle")
     vc = validate("TraceCodes", fc)
     _collect(chk, vc, ["C13", "C01", "C02", "C03", "fault"])
@@ -463,6 +476,25 @@ def c17():
                           "enc_cleanup s1 1 0", "enc_cleanup s1 2 0", "enc_cleanup s1 3 0",
                           "destroy s1", "destroy s2", "destroy s3", "destroy s4", "probe"]
                     scripts.append("\n".join(s))
+    # wide codes with as many fragments missing as the code tolerates when the backend operation fails (error paths
+    # that format or walk the missing list)
+    for (be, k, m, w) in ((BE_RS, 2, 30, 16), (BE_RS, 4, 28, 16), (BE_RS, 1, 31, 16), (BE_ISAL_CAUCHY, 3, 29, 8)):
+        n = k + m
+        for nkeep in (k, k + 1, k + 4):
+            keep = list(range(n - nkeep, n))
+            for op in (2, 3):
+                for variant in (0, 1):
+                    cases += 1
+                    s = ["reset", "create 1 %d %d %d %d %d 2" % (be, k, m, m, w), "encode s1 1 %d 11 0 0" % (7 * align(be, k) + 3),
+                         "arm %d %d 1 %d" % (be, op, variant)]
+                    if op == 2:
+                        s += ["decode s1 1 1 0 -100 0 0 %d %s" % (len(keep), " ".join(map(str, keep))), "dec_cleanup s1 1 0"]
+                    else:
+                        s += ["recon s1 1 0 0 -100 0 0 %d %s" % (len(keep), " ".join(map(str, keep)))]
+                    s += ["disarm", "decode s1 1 2 0 -100 0 0 %d %s" % (len(keep), " ".join(map(str, keep))), "dec_cleanup s1 2 0",
+                          "recon s1 1 0 0 -100 0 0 %d %s" % (len(keep), " ".join(map(str, keep))),
+                          "enc_cleanup s1 1 0", "destroy s1", "probe"]
+                    scripts.append("\n".join(s))
     # ISA-L: the plug-in's matrix inversion fails (reference plug-in knob) -- decode and reconstruct must refuse cleanly
     for be in (BE_ISAL_VAND, BE_ISAL_CAUCHY):
         for nth in (1, 2):
@@ -525,9 +557,12 @@ def c15():
     for (k, m) in [(4, 2), (2, 4), (10, 4), (1, 1)]:
         i += 1
         cmds.append(sweep_cmd(BE_RS, k, m, m, 2, len_classes(BE_RS, k)[5], _seed_of(chk, i), 0, k + m, 60, 1 | 8))
+    # a fragment length shorter than a header, the buffers really that short and ending at the guard page
+    for j, (be, k, m, hd) in enumerate([(BE_RS, 4, 2, 2), (BE_XOR, 6, 6, 4), (BE_ISAL_CAUCHY, 5, 3, 3), (BE_RS, 10, 4, 4)]):
+        cmds.append("short_len %d %d %d %d %d %d %d %d" % (be, k, m, hd, WORD[be], 1 + j % 2, 64 + j, _seed_of(chk, 5100 + j)))
     f1, e1, r1 = run_sweeps("plain", cmds, "C15-guard", guard=True)
     v1 = validate("TraceCodes", f1)
-    _collect(chk, v1, ["C15", "fault", "create failed", "encode failed"])
+    _collect(chk, v1, ["C15", "fault", "create failed", "encode failed", "C13 fragment length shorter"])
     c1 = v1.counts or [0] * 12
     # metadata query / validation / encode on guarded inputs
     wc = ["layout"]
